@@ -248,7 +248,8 @@ Proof. vm_compute. reflexivity. Qed.
 (* ---- filter_results, one gene under one equivalence group (fr_cds).  Domain fwf: hit_start <
    hit_end, distinct objects.  fov a b = "different objects with hsp_overlap_size > 20";
    fconn cds = chains of fov through the gene's hits (connected components);
-   fr_groups cds = the groups the pair loop builds (= overlapping_groups, first conjunct). *)
+   fr_groups cds = the groups the pair loop builds (= overlapping_groups, first conjunct).
+   The code is the one after the repair of FC13a: a pair touching several groups unites them. *)
 
 (* (a) what the groups are, for EVERY input order: non-empty sets of the gene's hits, each chained
    together by overlaps (so inside one component), and every overlapping pair lies in one of them *)
@@ -259,30 +260,31 @@ Theorem C13_filter_groups_partial : forall cds, fwf cds = true ->
 Proof. exact C13_filter_groups_proof. Qed.
 Print Assumptions C13_filter_groups_partial.
 
-(* (a) a group that contains every group it meets IS the connected component of its members *)
+(* (a) no hit lies in two groups: a pair that touches several groups unites them (repair of the
+   finding filter_groups_not_merged, FC13a) *)
+Theorem C13_filter_groups_disjoint : forall cds g1 g2, fwf cds = true ->
+  In g1 (fr_groups cds) -> In g2 (fr_groups cds) -> g1 = g2 \/ forall x, In x g1 -> In x g2 -> False.
+Proof. exact C13_filter_groups_disjoint_proof. Qed.
+Print Assumptions C13_filter_groups_disjoint.
+
+(* (a) every group IS the connected component of its members, for every input order (replaces
+   C13_filter_results_components_refuted; the hypothesis "the group contains every group it meets"
+   is gone) *)
 Theorem C13_filter_results_components : forall cds g h, fwf cds = true -> In g (fr_groups cds) ->
-  fclosed (fr_groups cds) g = true -> In h g -> forall x, In x g <-> fconn cds h x.
+  In h g -> forall x, In x g <-> fconn cds h x.
 Proof. exact C13_filter_components_proof. Qed.
 Print Assumptions C13_filter_results_components.
 
-(* (a) ... but the loop never unites two groups, and without that hypothesis the clause "the single
-   best-scoring hit of each overlapping group survives" is FALSE (finding class
-   filter_groups_not_merged): a chain of five hits listed as v0 v3 v1 v4 v2 keeps both chain ends *)
-Theorem C13_filter_results_components_refuted : exists eqg results mine,
-  fwf mine = true /\ distinct_scores mine = true /\ competing eqg mine = true /\
-  exists s' mine', fr_cds eqg (Ok (results, [])) mine = (Ok s', mine') /\
-    exists x y, In x mine' /\ In y mine' /\ x <> y /\ fconn mine x y.
-Proof. exact fr_components_refuted. Qed.
-Print Assumptions C13_filter_results_components_refuted.
-
-(* (c) "the result is the same for every ordering of the input" is FALSE for the same five hits *)
-Theorem C13_filter_results_order_refuted : exists eqg results mine mine2,
-  Permutation mine mine2 /\ fwf mine = true /\ distinct_scores mine = true /\ competing eqg mine = true /\
-  exists s1 m1 s2 m2, fr_cds eqg (Ok (results, [])) mine = (Ok s1, m1) /\
-                      fr_cds eqg (Ok (results, [])) mine2 = (Ok s2, m2) /\
-                      exists h, In h m1 /\ ~ In h m2.
-Proof. exact fr_order_refuted. Qed.
-Print Assumptions C13_filter_results_order_refuted.
+(* the recorded witness of FC13a, a chain of five hits listed as v0 v3 v1 v4 v2 (it used to keep both
+   chain ends v3 and v4, and only v4 in the positional order): one group of five, and for both
+   orders exactly the best hit v4 survives *)
+Theorem C13_filter_results_witness_repaired :
+  fwf fr_wit = true /\ distinct_scores fr_wit = true /\ competing [0; 1; 2; 3; 4] fr_wit = true /\
+  (exists g, overlapping_groups fr_wit = Ok [g] /\ length g = 5%nat) /\
+  (exists rem, fr_cds [0; 1; 2; 3; 4] (Ok (fr_wit, [])) fr_wit = (Ok ([fr_w4], rem), [fr_w4])) /\
+  (exists rem, fr_cds [0; 1; 2; 3; 4] (Ok (fr_wit, [])) fr_wit_sorted = (Ok ([fr_w4], rem), [fr_w4])).
+Proof. exact fr_witness_repaired. Qed.
+Print Assumptions C13_filter_results_witness_repaired.
 
 (* (b) for every input of the domain: the gene's list and the global list are FILTERED (order kept,
    nothing else touched) by fr_keep; the assert fires iff nothing is kept ... *)
@@ -335,24 +337,33 @@ Theorem C13_filter_results_spec_sound : forall cds h, fwf cds = true -> In h cds
 Proof. exact C13_comp_best_proof. Qed.
 Print Assumptions C13_filter_results_spec_sound.
 
-(* (a)+(b) under the guard (every group lies in a group containing every group it meets; scores
-   pairwise distinct): the step returns exactly what the property demands - of every component the
-   best hit, everything else untouched (fr_step_spec, the function the check evaluates, fn 105) *)
-Theorem C13_filter_results_guarded : forall eqg results removed mine r' m' app grd,
-  fr_step_spec eqg results mine = (r', m', app, grd) -> app = true -> grd = true ->
+(* (a)+(b) for every input of the domain with pairwise distinct scores: the step returns exactly what
+   the property demands - of every component the best hit, everything else untouched (fr_step_spec,
+   the function the check evaluates, fn 105).  Was C13_filter_results_guarded; the guard is gone *)
+Theorem C13_filter_results_spec : forall eqg results removed mine r' m' app,
+  fr_step_spec eqg results mine = (r', m', app) -> app = true ->
   fr_J (results, mine, removed) ->
   exists removed', fr_cds eqg (Ok (results, removed)) mine = (Ok (r', removed'), m').
 Proof. exact fr_cds_meets_spec. Qed.
-Print Assumptions C13_filter_results_guarded.
+Print Assumptions C13_filter_results_spec.
 
-(* (c) under the guard the survivors are the same for every order of the gene's hit list *)
-Theorem C13_filter_results_order_independent_guarded : forall mine mine2,
+(* the survivors are exactly the best hits of the connected components *)
+Theorem C13_filter_results_keep_iff_best : forall mine h, fwf mine = true -> distinct_scores mine = true ->
+  In h mine -> (fr_keep mine h = true <-> forall o, fconn mine h o -> f_sc o <= f_sc h).
+Proof.
+  intros mine h W D Hh. rewrite (fr_keep_spec mine h W D Hh).
+  exact (proj2 (C13_comp_best_proof mine h W Hh)).
+Qed.
+Print Assumptions C13_filter_results_keep_iff_best.
+
+(* (c) the survivors are the same for every order of the gene's hit list (replaces
+   C13_filter_results_order_refuted and C13_filter_results_order_independent_guarded) *)
+Theorem C13_filter_results_order_independent : forall mine mine2,
   Permutation mine mine2 -> fwf mine = true -> fwf mine2 = true ->
   distinct_scores mine = true -> distinct_scores mine2 = true ->
-  groups_guard (fr_groups mine) = true -> groups_guard (fr_groups mine2) = true ->
   forall h, In h (filter (fr_keep mine) mine) <-> In h (filter (fr_keep mine2) mine2).
-Proof. exact fr_order_independent_guarded. Qed.
-Print Assumptions C13_filter_results_order_independent_guarded.
+Proof. exact fr_order_independent. Qed.
+Print Assumptions C13_filter_results_order_independent.
 
 (* ---- hmmer.remove_overlapping: ranking_stats is a strict total order on hits with positive score
    and cutoff ... *)
@@ -435,20 +446,22 @@ Proof. exact refine_gene_pairwise_uniform. Qed.
 Print Assumptions C13_pairwise_margin_uniform.
 
 (* ---- non-vacuity of the new implications *)
-(* a chain A-B-C-D listed as A D B C: two groups, the guard holds, one survivor *)
-Example C13_ex_filter_guard :
+(* a chain A-B-C-D listed as A D B C: the groups {A,B} and {D,C} are opened and then united by the
+   pair (B, C): one group, one survivor *)
+Example C13_ex_filter_united :
   let mine := [mkFH 0 0 0 100 20 0; mkFH 3 3 210 310 200 3; mkFH 1 1 70 170 40 1; mkFH 2 2 140 240 60 2] in
   fwf mine = true /\ distinct_scores mine = true /\ competing [0; 1] mine = true /\
-  length (fr_groups mine) = 2%nat /\ groups_guard (fr_groups mine) = true /\
-  fr_step_spec [0; 1] mine mine = ([mkFH 3 3 210 310 200 3], [mkFH 3 3 210 310 200 3], true, true) /\
+  map (map f_id) (fr_groups mine) = [[0; 1; 2; 3]] /\
+  fr_step_spec [0; 1] mine mine = ([mkFH 3 3 210 310 200 3], [mkFH 3 3 210 310 200 3], true) /\
   fst (fr_cds [0; 1] (Ok (mine, [])) mine) = Ok ([mkFH 3 3 210 310 200 3], [2; 1; 0]).
 Proof. vm_compute. repeat split; reflexivity. Qed.
-Example C13_ex_filter_closed_group :
-  let mine := [mkFH 0 0 0 100 20 0; mkFH 3 3 210 310 200 3; mkFH 1 1 70 170 40 1; mkFH 2 2 140 240 60 2] in
-  exists g, In g (fr_groups mine) /\ fclosed (fr_groups mine) g = true /\ length g = 4%nat.
-Proof. eexists. split; [left; reflexivity|]. split; vm_compute; reflexivity. Qed.
-Example C13_ex_filter_witness_guard_false : exists gs, overlapping_groups fr_wit = Ok gs /\ groups_guard gs = false.
-Proof. exact fr_guard_rejects_witness. Qed.
+(* two components: two groups, the best of each survives *)
+Example C13_ex_filter_two_components :
+  let mine := [mkFH 0 0 0 100 20 0; mkFH 1 1 300 400 30 1; mkFH 2 1 70 170 40 2; mkFH 3 0 370 470 10 3] in
+  fwf mine = true /\ distinct_scores mine = true /\ competing [0; 1] mine = true /\
+  map (map f_id) (fr_groups mine) = [[0; 2]; [1; 3]] /\
+  map f_id (snd (fr_cds [0; 1] (Ok (mine, [])) mine)) = [1; 2].
+Proof. vm_compute. repeat split; reflexivity. Qed.
 Example C13_ex_filter_J : fr_J ([mkFH 0 0 0 100 20 0], [mkFH 0 0 0 100 20 0], []).
 Proof. intros i []. Qed.
 Example C13_ex_hmmer_dropped :
